@@ -90,6 +90,18 @@ def run(ctx):
             t = runner(p, script, wrap_of(wname))
             t["wrap"] = wname
             traces.append(t)
+        if kind == "Cusum":
+            # a burn-in of more than a thousand observations (a day of minute data, say) with level shifts inside it: target and deviation are
+            # those of ALL burn_in observations, in the first epoch and again after every alarm
+            for i in range(1 if q else 5):
+                bi = rng.choice([1100, 1300, 1500])
+                p = {"target": None, "sd_hat": None, "burn_in": bi, "delta": 0.05, "threshold": rng.choice([5, 10]), "direction": None}
+                if i % 2 == 1:
+                    p.update(target=1.0, sd_hat=1.0)
+                xs = D.shifty_stream(rng, 2 * bi + 500, seg=(bi // 3, bi // 2), levels=(-2, 4), noise=(0.4, 1.0), grid=0.5)
+                t = runner(p, [("update", x) for x in xs], wrap_of("scalar"))
+                t["wrap"] = "scalar"
+                traces.append(t)
         ctx.validate(kind, traces, "%s long shifting streams" % kind, sabotage=D.sabotage, replay=replayer(traces),
                      nontrivial=lambda t: sum(1 for e in t["ev"] if e["state"] == "drift") >= 3)
     ctx.assumptions += ["reported floats are compared with relative tolerance 1e-7; decisions within 1e-9 relative are ambiguous",
